@@ -59,6 +59,25 @@ def main():
             for pid, v in sorted(r.items()) if isinstance(v, dict)) or "not run yet"
         out.append(f"| `{d.name}` | {m['breaks']} | {m['needs_to_manifest']} | {cell} |")
     out.append("")
+    hd = V / "harmless"
+    if hd.exists():
+        hres = json.loads((hd / "RESULTS.json").read_text()) if (hd / "RESULTS.json").exists() else {}
+        out.append("### 10.3b Behaviour-preserving refactorings (independent sub-agents) and what the checks say\n")
+        out.append("Right answers: QUIET, or TIE-BROKEN (only `... no-failing-input-found` lines: the source translation or an "
+                   "agreement proof no longer checks, no failing input exists); wrong answer: FALSE-ALARM (a violation that claims a failing input).\n")
+        out.append("| refactoring | checks run | outcome |")
+        out.append("|---|---|---|")
+        tot = {"QUIET": 0, "TIE-BROKEN": 0, "FALSE-ALARM": 0}
+        for d in sorted(p for p in hd.iterdir() if p.is_dir()):
+            r = hres.get(d.name, {})
+            cells = []
+            for pid, v in sorted(r.items()):
+                if isinstance(v, dict):
+                    cells.append(f"{pid}: {v['status']}")
+                    tot[v["status"]] = tot.get(v["status"], 0) + 1
+            out.append(f"| `{d.name}` | {len(cells)} | {'; '.join(cells) or 'not run yet'} |")
+        out.append("")
+        out.append(f"Totals: {tot['QUIET']} quiet, {tot['TIE-BROKEN']} tie-broken (no failing input), {tot['FALSE-ALARM']} false alarms.\n")
     text = (V / "DESIGN.md").read_text()
     block = B + "\n" + "\n".join(out) + "\n" + E
     if B in text:
